@@ -304,6 +304,17 @@ func valueTarget(ft *Term) (g *ssa.Function, via *Term, recv *Term) {
 		if f != nil && len(f.Blocks) > 0 && Inlineable(f) {
 			return f, ft, nil
 		}
+		// a function literal that captures nothing is a plain function value
+		if f != nil && f.Parent() != nil && len(f.Blocks) > 0 && len(f.FreeVars) == 0 && f.Recover == nil && f.Synthetic == "" && InModule(f) {
+			for _, b := range f.Blocks {
+				for _, in := range b.Instrs {
+					if _, isDefer := in.(*ssa.Defer); isDefer {
+						return nil, nil, nil
+					}
+				}
+			}
+			return f, ft, nil
+		}
 	case "closure":
 		if m := BoundMethod(ft); m != nil {
 			if len(m.Blocks) > 0 && Inlineable(m) && len(ft.Args) == 1 && len(m.Params) > 0 {
